@@ -424,6 +424,34 @@ func (r *Run) Checkpoint() {
 	}
 }
 
+// Uniform draws an integer 0..n-1 with equal probabilities. rapid's own integer
+// generators are deliberately biased towards small and boundary values (0..1
+// of 0..99 carries about 21 %), which distorts workload mixes; single bits are
+// not biased, so the value is assembled from bits (rejection sampling). It
+// still shrinks towards 0.
+func Uniform(t *rapid.T, label string, n int) int {
+	if n <= 1 {
+		return 0
+	}
+	bits := 0
+	for (1 << bits) < n {
+		bits++
+	}
+	v := 0
+	for try := 0; try < 6; try++ {
+		v = 0
+		for b := 0; b < bits; b++ {
+			if rapid.Bool().Draw(t, label) {
+				v |= 1 << b
+			}
+		}
+		if v < n {
+			return v
+		}
+	}
+	return v % n
+}
+
 // Weighted picks an index according to integer weights (zero weights are
 // never picked).
 func Weighted(t *rapid.T, label string, weights []int) int {
@@ -434,7 +462,7 @@ func Weighted(t *rapid.T, label string, weights []int) int {
 	if total == 0 {
 		harnessf("Weighted(%s): all weights zero", label)
 	}
-	x := rapid.IntRange(0, total-1).Draw(t, label)
+	x := Uniform(t, label, total)
 	for i, w := range weights {
 		if x < w {
 			return i
@@ -444,7 +472,7 @@ func Weighted(t *rapid.T, label string, weights []int) int {
 	return len(weights) - 1
 }
 
-// Chance draws true with probability pct/100.
+// Chance draws true with probability pct/100 (shrinks towards false).
 func Chance(t *rapid.T, label string, pct int) bool {
 	if pct <= 0 {
 		return false
@@ -452,13 +480,23 @@ func Chance(t *rapid.T, label string, pct int) bool {
 	if pct >= 100 {
 		return true
 	}
-	return rapid.IntRange(0, 99).Draw(t, label) >= 100-pct
+	return Uniform(t, label, 100) >= 100-pct
 }
 
-// Pick draws an index 0..n-1.
+// Pick draws an index 0..n-1 uniformly.
 func Pick(t *rapid.T, label string, n int) int {
-	if n <= 1 {
-		return 0
+	return Uniform(t, label, n)
+}
+
+// OpsSlice draws the abstract operation list of a run: rapid's SliceOfN(g, 1,
+// max) averages only about six elements, so a per-run knob first draws a
+// minimum length (index 0 is the plain 1..max slice, which is what shrinking
+// converges to, so steps can still be deleted).
+func OpsSlice[T any](t *rapid.T, g *rapid.Generator[T], max int) []T {
+	mins := []int{1, max / 8, max / 3, max * 6 / 10}
+	m := mins[Pick(t, "minOps", len(mins))]
+	if m < 1 {
+		m = 1
 	}
-	return rapid.IntRange(0, n-1).Draw(t, label)
+	return rapid.SliceOfN(g, m, max).Draw(t, "ops")
 }
